@@ -165,19 +165,19 @@ Qed.
 Lemma le_max_l a b c : (Nat.max a b < c -> a < c)%nat. Proof. lia. Qed.
 
 Theorem str_walk_shape : forall v, plain v ->
-  forall fuel key, (depth v < fuel)%nat -> str_walk es5 RNone None fuel false key v = denote v.
+  forall fuel inarr key, (depth v < fuel)%nat -> str_walk es5 RNone None fuel false inarr key v = denote v.
 Proof.
-  induction v using js_ind'; intros Hp fuel key Hf; (destruct fuel as [|f]; [lia|]); try reflexivity.
+  induction v using js_ind'; intros Hp fuel inarr key Hf; (destruct fuel as [|f]; [lia|]); try reflexivity.
   - (* array *)
     cbn [str_walk denote]. f_equal. cbn [depth] in Hf.
-    apply (map_index_from (fun k x => str_walk es5 RNone None f false k x) denote).
+    apply (map_index_from (fun k x => str_walk es5 RNone None f false true k x) denote).
     cbn [plain] in Hp. induction l as [|x l IHl]; [constructor|].
     inversion H; subst. cbn [fold_right] in Hp, Hf. destruct Hp as [Hx Hl].
     constructor; [intros k; apply H2; [assumption | lia] | apply IHl; auto; lia].
   - (* object *)
     cbn [str_walk denote]. cbn [plain] in Hp. destruct Hp as [Hd Hp]. cbn [depth] in Hf.
     rewrite own_keys_distinct by assumption. f_equal.
-    apply (map_members (fun k x => str_walk es5 RNone None f false k x) denote m []); [exact Hd|].
+    apply (map_members (fun k x => str_walk es5 RNone None f false false k x) denote m []); [exact Hd|].
     induction m as [|kv m IHm]; [constructor|].
     inversion H; subst. cbn [fold_right map fst distinct] in Hp, Hf, Hd. destruct Hp as [Hx Hl].
     constructor; [intros k; apply H2; [assumption | lia] | apply IHm; try tauto; lia].
